@@ -1240,8 +1240,13 @@ func (m *mach) invoke(fr *mframe, fn mv, args []mv, env []mv, at ssa.Instruction
 				if k, ok := reflectKind(f.recv.rt); ok {
 					return k
 				}
+			case "Elem":
+				if et := reflectElem(f.recv.rt); et != nil {
+					return &mSym{name: "reflect.TypeOf(" + et.String() + ")", nonNil: true, rt: et}
+				}
 			case "String":
-				return f.recv.rt.String()
+				// as package reflect prints types: qualified by the package name, not its path
+				return types.TypeString(f.recv.rt, func(p *types.Package) string { return p.Name() })
 			}
 		}
 		// a method of an opaque object: the rule gives it a meaning through symCall
